@@ -54,7 +54,7 @@ if __name__ == '__main__':
     if len(sys.argv) > 1:
         # only the items matching the regular expression; results are merged into the existing MATRIX.json
         its = [i for i in its if re.search(sys.argv[1], i[0])]
-    with cf.ThreadPoolExecutor(7) as ex:
+    with cf.ThreadPoolExecutor(8) as ex:
         results = list(ex.map(run_one, its))
     mj = os.path.join(ROOT, 'seeded', 'MATRIX.json')
     if len(sys.argv) > 1 and os.path.exists(mj):
